@@ -193,6 +193,34 @@ func c01Run(e *vsched.Exec, conns [][]string, disableUDP bool) {
 	for _, cn := range cs {
 		cn.cl.close()
 	}
+	e.WaitIdle()
+	// the same two clauses once more after every connection has ended: what a never-authenticated
+	// connection left queued (datagrams, half-read streams) must not be relayed at teardown either
+	// (added after the independently seeded change C01-7: the UDP session manager of a connection
+	// that never authenticated was started when the connection ended, and drained the datagrams
+	// quic-go still hands out after the close)
+	for _, cn := range cs {
+		addr := cn.cl.Addr()
+		firstOK := r.firstIndex(func(ev rigEvent) bool { return ev.Kind == "auth" && ev.Conn == addr && ev.OK })
+		if firstOK < 0 && cn.cl.Conn.Peer().RecvDatagramCalls != 0 {
+			e.Fail("(d) ReceiveDatagram issued on connection %s, which never authenticated, after it ended", cn.name)
+		}
+		for i, ev := range r.Events {
+			switch ev.Kind {
+			case "tcp", "udp", "checkudp", "udpwrite", "tcpreq", "udpreq":
+				tag := ev.A
+				if ev.Kind == "tcpreq" || ev.Kind == "udpreq" {
+					tag = ev.B
+				}
+				if !strings.HasPrefix(tag, "t-"+cn.name) && !strings.HasPrefix(tag, "u-"+cn.name) {
+					continue
+				}
+				if firstOK < 0 || firstOK > i {
+					e.Fail("(a) %v for connection %s happened (by the time the connection had ended) without a preceding accepted authentication on that connection", ev, cn.name)
+				}
+			}
+		}
+	}
 	r.shutdown(true)
 }
 
